@@ -17,6 +17,7 @@ float(e) -> e, sympy.simplify(e) -> e, scalar*matrix, matrix*matrix (symbolic pr
 calls to other *_matrix functions.  Idealisations (trusted base): np.pi -> PI, np.sqrt(2)/sympy.sqrt(2) ->
 sqrt 2, 2 ** (-0.5) -> / sqrt 2, float rounding ignored.  Anything else is rejected.
 """
+OUTPUTS = ['GatesGen.v']      # generated files (the driver uses this to decide which properties depend on this translator)
 import ast, os
 from fractions import Fraction
 from trlib import *
